@@ -14,9 +14,15 @@
    kernels, argument values and predicted outputs that are run against the real translators.
 
    IR.  kernel = [nests : Seq(nest)]
-        nest   = [O, I        : extents of the 1-2 @outer and 1-2 @inner loops,
+        nest   = [O, I        : extents (iteration counts) of the 1-2 @outer and 1-2 @inner loops,
+                  OH, IH      : their headers [init, bound, cmp, left, upd, step]: `for (int v = init;
+                                v cmp bound | bound cmp v; ++v | v++ | --v | v-- | v += step | v -= step)`.
+                                The sequential loop visits Iters(h); the k-th visited value stands for
+                                the normalised index k that the statements use (o, i); HeadOK demands
+                                Len(Iters(h)) = extent, so SeqRun iterates exactly the header's values,
                   limit       : only linear iterations < limit do anything (@tile check guard),
                   hasSh,hasEx : `@shared int sh[IT]`, `@exclusive int ex` between the levels,
+                  hasRow      : `int *row = acc + o % 2` between the levels (an alias of the argument acc),
                   base        : `const int base = E(o)` between the levels (or NoE),
                   omap        : the injective map (o,i) -> cell of `out` used by this nest,
                   style       : semantically neutral rendering choices (annotations),
@@ -28,6 +34,11 @@
                   sh      sh[i] = e                    exset   ex  = e      exadd  ex += e
                   atomic  @atomic acc[cell] += e       let     const int tmp = e
                   atomsub @atomic acc[cell] -= e       atominc @atomic acc[cell]++   atomdec @atomic --acc[cell]
+                  via (atomic statements only): how the updated cell of acc is named --
+                    "direct" acc[c]             "ptr"  `int *p = acc + c;` inside the @inner body, `*p`
+                    "ref"    `int &r = acc[c];` inside the @inner body, `r`
+                    "row"    `int *row = acc + o % 2;` between the levels (nest.hasRow), `row[k]`
+                  (an alias changes nothing in the meaning; several iterations DO hit the same cell)
                   cond # "none": `if (Cond(o,i)) S`;   n > 1: `for (t < n) S`
         expr   = [k, s, v, l, r] trees over constants, the scalar arguments a and b, the
                  linear iterators o and i, in[..] (never written), sh[..], ex, tmp, base,
@@ -56,6 +67,24 @@ UNDEF == 1000003     \* content of storage nobody wrote yet; never read by a gen
 Prod(s) == IF Len(s) = 1 THEN s[1] ELSE s[1] * s[2]
 OT(nest) == Prod(nest.O)
 IT(nest) == Prod(nest.I)
+
+-----------------------------------------------------------------------------
+(* Loop headers: the values the sequential C loop visits *)
+CmpHolds(c, x, y) == CASE c = "lt" -> x < y [] c = "le" -> x <= y [] c = "gt" -> x > y [] c = "ge" -> x >= y
+HdrCond(h, v) == IF h.left THEN CmpHolds(h.cmp, v, h.bound) ELSE CmpHolds(h.cmp, h.bound, v)
+HdrUp(h) == h.upd \in {"preinc", "postinc", "addeq"}
+HdrNext(h, v) == IF HdrUp(h) THEN v + h.step ELSE v - h.step
+RECURSIVE HdrIters(_, _, _)
+HdrIters(h, v, fuel) == IF fuel = 0 \/ ~HdrCond(h, v) THEN <<>> ELSE <<v>> \o HdrIters(h, HdrNext(h, v), fuel - 1)
+Iters(h) == HdrIters(h, h.init, 13)
+\* the header is well formed and its loop runs exactly n times (and stops by its own condition)
+HdrOK(h, n) ==
+  /\ h.cmp \in {"lt", "le", "gt", "ge"} /\ h.left \in BOOLEAN
+  /\ h.upd \in {"preinc", "postinc", "predec", "postdec", "addeq", "subeq"}
+  /\ h.step \in 1..3 /\ (h.upd \notin {"addeq", "subeq"} => h.step = 1)
+  /\ n <= 12 /\ Len(Iters(h)) = n
+HdrsOK(hs, ext) == Len(hs) = Len(ext) /\ \A j \in 1..Len(ext) : HdrOK(hs[j], ext[j])
+TrivialHdr(h, n) == h = [init |-> 0, bound |-> n, cmp |-> "lt", left |-> TRUE, upd |-> "preinc", step |-> 1]
 
 -----------------------------------------------------------------------------
 (* Expressions *)
@@ -123,10 +152,12 @@ Inj(omap, env) ==
   CASE omap = "row" -> Lin(env)
     [] omap = "rev" -> env.OT * env.IT - 1 - Lin(env)
     [] omap = "col" -> env.i * env.OT + env.o
-AccCell(c, env) ==
-  CASE c = "c0" -> 0
-    [] c = "o"  -> env.o % NACC
-    [] c = "i"  -> env.i % NACC
+AccCell(s, env) ==
+  IF s.via = "row"
+    THEN (env.o % 2) + (CASE s.cell = "c0" -> 0 [] s.cell = "i" -> env.i % 2 [] s.cell = "o" -> 1)
+    ELSE CASE s.cell = "c0" -> 0
+           [] s.cell = "o"  -> env.o % NACC
+           [] s.cell = "i"  -> env.i % NACC
 
 -----------------------------------------------------------------------------
 (* One statement, executed by iteration (o,i) on
@@ -158,7 +189,7 @@ Apply(s, nest, arg, o, i, S) ==
   ELSE
     LET v == Eval(s.e, env)
         c == Inj(nest.omap, env) + 1
-        a == AccCell(s.cell, env) + 1
+        a == AccCell(s, env) + 1
     IN CASE s.op = "out"    -> IF c \in 1..NOUT THEN [S EXCEPT !.out[c] = v] ELSE [S EXCEPT !.bad = TRUE]
          [] s.op = "outadd" -> IF c \in 1..NOUT THEN [S EXCEPT !.out[c] = @ + v] ELSE [S EXCEPT !.bad = TRUE]
          [] s.op = "sh"     -> [S EXCEPT !.sh[i + 1] = v]
@@ -243,6 +274,8 @@ StmtShapeOK(s) ==
   /\ s.cond # "none" => s.op \in {"out", "outadd", "exadd"} \cup AtomicOps
   /\ s.n >= 1
   /\ s.n > 1 => s.op \in {"outadd", "exadd"} \cup AtomicOps
+  /\ s.via \in {"direct", "ptr", "ref", "row"}
+  /\ s.via # "direct" => s.op \in AtomicOps
 
 \* may statement s be appended to the last phase of nest?
 Allowed(s, nest) ==
@@ -259,7 +292,9 @@ Allowed(s, nest) ==
   /\ "base" \in ks => nest.base # NoE
   /\ ("sh" \in ks \/ s.op = "sh") => nest.hasSh
   /\ ("ex" \in ks \/ s.op \in {"exset", "exadd"}) => nest.hasEx
+  /\ s.via = "row" => nest.hasRow
   /\ nest.style.tile => (ks \cap {"sh", "ex", "base"} = {} /\ s.op \notin {"sh", "exset", "exadd"})
+  /\ <<"in", "rot">> \in Leaves(s.e) => OT(nest) > 0          \* (its index is taken modulo OT * IT)
   \* a local is read only after its declaration in the same @inner body
   /\ "tmp" \in ks => \E t \in here : t.op = "let"
   /\ s.op = "let" => ~\E t \in here : t.op = "let"
@@ -286,13 +321,17 @@ BaseOK(e) == IF e = NoE THEN TRUE
 
 HeadOK(h) ==
   /\ Len(h.O) \in 1..2 /\ Len(h.I) \in 1..2
+  /\ HdrsOK(h.OH, h.O) /\ HdrsOK(h.IH, h.I)
+  /\ \A j \in 1..Len(h.I) : h.I[j] >= 1                       \* only an @outer loop may be empty
   /\ OT(h) * IT(h) <= NOUT /\ OT(h) * IT(h) <= NIN
-  /\ h.limit \in 1..(OT(h) * IT(h))
+  /\ h.limit \in (IF OT(h) = 0 THEN {0} ELSE 1..(OT(h) * IT(h)))
+  /\ OT(h) = 0 => (~h.style.dim /\ ~h.style.tile)
   /\ h.omap \in {"row", "rev", "col"}
   /\ BaseOK(h.base)
   /\ h.phases = <<>>
   /\ h.limit < OT(h) * IT(h) => h.style.tile
-  /\ h.style.tile => (Len(h.O) = 1 /\ Len(h.I) = 1 /\ ~h.hasSh /\ ~h.hasEx /\ h.base = NoE)
+  /\ h.style.tile => (Len(h.O) = 1 /\ Len(h.I) = 1 /\ ~h.hasSh /\ ~h.hasEx /\ ~h.hasRow /\ h.base = NoE
+                       /\ TrivialHdr(h.OH[1], h.O[1]) /\ TrivialHdr(h.IH[1], h.I[1]))
   /\ h.style.dim => h.omap = "row"
 
 -----------------------------------------------------------------------------
@@ -412,7 +451,7 @@ StepStmt(o, i) ==
      ELSE IF s.op \in AtomicOps
        THEN \* mutant: plain `acc[c] += e`: load, then store
             LET env == Env(RunNest, arg, o, i, S)
-                a   == AccCell(s.cell, env) + 1
+                a   == AccCell(s, env) + 1
             IN IF p.sub % 2 = 0
                  THEN /\ reg' = [reg EXCEPT ![o][i] = mem.acc[a]]
                       /\ Advance(o, i, s, 2 * s.n)
